@@ -18,19 +18,6 @@ open Zc.Name Zc.Name.Spec
 
 /-! ## Names -/
 
-private theorem valid_inv {strict : Bool} {s t : Str} (h : Valid strict s t) :
-    (∃ svc tr, tr ∈ protoTrailers ∧ SvcLabel strict svc ∧ s = svc ++ tr ∧ t = svc ++ tr)
-    ∨ (∃ p svc tr, tr ∈ protoTrailers ∧ SvcLabel strict svc ∧ p ≠ [] ∧ PrefixOk p ∧ s = (p ++ '.' :: svc) ++ tr ∧ t = svc ++ tr)
-    ∨ (strict = false ∧ ∃ p, (∀ tr ∈ protoTrailers, ¬ tr <:+ s) ∧ PrefixOk p ∧ s = p ++ localTrailer ∧ t = localType) := by
-  cases h with
-  | service a b => exact Or.inl ⟨_, _, a, b, rfl, rfl⟩
-  | prefixed a b c d => exact Or.inr (Or.inl ⟨_, _, _, a, b, c, d, by simp, rfl⟩)
-  | bareLocal a b c => exact Or.inr (Or.inr ⟨a, _, b, c, rfl, rfl⟩)
-
-private theorem split_trailer {a b tr tr' : Str} (h1 : tr ∈ protoTrailers) (h2 : tr' ∈ protoTrailers) (h : a ++ tr = b ++ tr') :
-    a = b ∧ tr = tr' :=
-  List.append_inj' h (by rw [proto_length h1, proto_length h2])
-
 /-- **The validator accepts exactly the documented forms and returns the service type.**
 For every string `s`, both modes and every `t`: `service_type_name(s, strict=strict)` returns `t`
 if and only if `s` is at most 256 characters long and is `<service>._tcp|_udp.local.`,
@@ -240,5 +227,107 @@ example : ∀ t, ¬ Accepts true "_my_long_service_name_x._tcp.local.".toList t 
   exact absurd this (by rw [show serviceTypeName "_my_long_service_name_x._tcp.local.".toList true = .error .badType from rfl]; intro h; cases h)
 example : Accepts false "host.local.".toList "local.".toList := (C19_validate_spec _ _ _).1 rfl
 example : Accepts false ".local.".toList "local.".toList := (C19_validate_spec _ _ _).1 rfl
+
+/-! ## TXT properties -/
+open Zc.Txt
+
+/-- RFC 6763 §6.4, what makes a properties dictionary unambiguous as a TXT record: no `=` in a key,
+keys distinct (after `str` keys have been encoded), every `key[=value]` item at most 255 bytes -/
+structure WFProps (ps : Txt.Props) : Prop where
+  noEqInKey : ∀ e ∈ ps, Txt.eqByte ∉ e.1
+  distinctKeys : (ps.map (·.1)).Nodup
+  itemsFit : ∀ e ∈ ps, (Txt.itemOf e).length ≤ 255
+
+/-- … and, for a reader that follows RFC 6763 §6.4 to the letter (keys are case-insensitive, a string without
+a key is ignored): keys non-empty and distinct up to ASCII case -/
+structure WFPropsRfc (ps : Txt.Props) : Prop extends WFProps ps where
+  keysNonempty : ∀ e ∈ ps, e.1 ≠ []
+  distinctFolded : (ps.map (fun e => Txt.Spec.foldKey e.1)).Nodup
+
+/-- **Library round trip.**  For every well-formed dictionary, `_set_properties` succeeds and decoding the resulting
+TXT bytes with `_unpack_text_into_properties` gives back the same keys, in order, with the same values — an empty
+value read back as no value. -/
+theorem C19_txt_roundtrip_library (ps : Txt.Props) (h : WFProps ps) :
+    ∃ text, Txt.encode ps = .ok text ∧ Txt.decodeLib text = Txt.normalise ps :=
+  ⟨_, encode_wf h.itemsFit, decodeLib_wire h.noEqInKey h.distinctKeys h.itemsFit⟩
+
+/-- **Independent RFC 6763 §6 reader.**  The same bytes, read by a parser written from the RFC (length-prefixed
+strings, first `=` separates key and value, no `=` means "present without value", empty value kept, keys
+case-insensitive, first occurrence wins), give back exactly the dictionary — empty values included. -/
+theorem C19_txt_roundtrip_rfc6763 (ps : Txt.Props) (h : WFPropsRfc ps) :
+    ∃ text, Txt.encode ps = .ok text ∧ Txt.Spec.parse text = some ps := by
+  refine ⟨_, encode_wf h.itemsFit, ?_⟩
+  rw [Txt.Spec.parse, strings_wire _ (items_fit h.itemsFit)]
+  simp only [Option.map_some, filterMap_attr ps h.noEqInKey h.keysNonempty]
+  rw [firstWins_fresh ps [] (fun _ _ => by simp) h.distinctFolded]
+
+/-- both readers on the same bytes (the statement of DESIGN §7) -/
+theorem C19_txt_roundtrip (ps : Txt.Props) (h : WFPropsRfc ps) :
+    ∃ text, Txt.encode ps = .ok text ∧ Txt.decodeLib text = Txt.normalise ps ∧ Txt.Spec.parse text = some ps := by
+  obtain ⟨t1, h1, h2⟩ := C19_txt_roundtrip_library ps h.toWFProps
+  obtain ⟨t2, h3, h4⟩ := C19_txt_roundtrip_rfc6763 ps h
+  rw [h1] at h3; injection h3 with h3; subst h3
+  exact ⟨t1, h1, h2, h4⟩
+
+/-- what `ServiceInfo(properties=ps).properties` shows — the caller's own dictionary when no `str` was involved, the
+lazily decoded text otherwise — is the dictionary, up to "empty value = no value" -/
+theorem C19_txt_properties_observed (containsStr : Bool) (ps : Txt.Props) (h : WFProps ps) :
+    ∃ text, Txt.encode ps = .ok text ∧ Txt.normalise (Txt.propertiesObs containsStr ps text) = Txt.normalise ps := by
+  refine ⟨_, encode_wf h.itemsFit, ?_⟩
+  cases containsStr with
+  | false => rfl
+  | true =>
+    simp only [Txt.propertiesObs, if_true, decodeLib_wire h.noEqInKey h.distinctKeys h.itemsFit]
+    simp [Txt.normalise, Txt.normVal, libVal_idem]
+
+/-- the only way `_set_properties` fails: some `key[=value]` item is longer than 255 bytes, and then it is `ValueError`
+(from `bytes((len(item),))`) -/
+theorem C19_txt_encode_error (ps : Txt.Props) (e : PyExc) :
+    Txt.encode ps = .error e ↔ e = .valueError ∧ ∃ p ∈ ps, 255 < (Txt.itemOf p).length := by
+  rw [Txt.encode, encodeItems_error]
+  constructor
+  · rintro ⟨h1, it, hit, hl⟩
+    obtain ⟨p, hp, rfl⟩ := List.mem_map.1 hit
+    exact ⟨h1, p, hp, hl⟩
+  · rintro ⟨h1, p, hp, hl⟩
+    exact ⟨h1, _, List.mem_map_of_mem hp, hl⟩
+
+/-- outside `WFProps`, part 1: a key containing `=` is split at its first `=` when read back -/
+theorem C19_txt_key_with_eq (k1 k2 : Bytes) (v : Option Bytes) (h : Txt.eqByte ∉ k1) :
+    (Txt.partitionEq (Txt.itemOf (k1 ++ Txt.eqByte :: k2, v))).1 = k1 := by
+  cases v with
+  | none => simp [Txt.itemOf, partitionEq_key_value k1 k2 h]
+  | some v =>
+    have : Txt.itemOf (k1 ++ Txt.eqByte :: k2, some v) = k1 ++ Txt.eqByte :: (k2 ++ Txt.eqByte :: v) := by simp [Txt.itemOf]
+    rw [this, partitionEq_key_value k1 _ h]
+
+/-- outside `WFProps`, part 2: of two items with the same key the first one wins -/
+theorem C19_txt_first_key_wins (k : Bytes) (v w : Option Bytes) (d : Txt.Props) :
+    Txt.insertNew (Txt.insertNew d k v) k w = Txt.insertNew d k v := by
+  have : Txt.hasKey (Txt.insertNew d k v) k = true := by
+    unfold Txt.insertNew
+    split
+    · assumption
+    · simp [Txt.hasKey]
+  rw [Txt.insertNew, if_pos this]
+
+/-! ### non-vacuity -/
+
+/-- `{'path': '/x', 'flag': None, 'empty': ''}` is well-formed -/
+example : WFPropsRfc [([112, 97, 116, 104], some [47, 120]), ([102], none), ([101], some [])] where
+  noEqInKey := by decide
+  distinctKeys := by decide
+  itemsFit := by decide
+  keysNonempty := by decide
+  distinctFolded := by decide
+
+/-- … and its TXT form is `\x07path=/x\x01f\x02e=`; the library reads the empty value back as `None`,
+the RFC reader keeps it -/
+example : Txt.encode [([112, 97, 116, 104], some [47, 120]), ([102], none), ([101], some [])]
+    = .ok [7, 112, 97, 116, 104, 61, 47, 120, 1, 102, 2, 101, 61] := by rfl
+
+/-- `{'a': 1, 'A': 2}` is well-formed for the library but not for a case-insensitive RFC reader -/
+example : WFProps [([97], some [49]), ([65], some [50])] ∧ ¬ WFPropsRfc [([97], some [49]), ([65], some [50])] :=
+  ⟨⟨by decide, by decide, by decide⟩, fun h => absurd h.distinctFolded (by decide)⟩
 
 end Zc
